@@ -45,14 +45,30 @@ BASELINE_OFF_CMD = ('cd /repo && cargo nextest run --workspace --no-fail-fast --
 NOT_APPLICABLE = {
     'C08': 'save/load behaviour is the serde derive expansion of five types plus hand-written serde impls of three '
            'dependency crates plus bincode (emap deserialises through a std HashMap); no function of sodg can carry a '
-           'contract beyond "calls bincode::serialize"; Verus cannot see derive output or external crates, Kani cannot hold a Sodg',
+           'contract beyond "calls bincode::serialize"; a contract on bincode ("deserialize(serialize(x)) == x") would assume '
+           'the property instead of deciding it; Verus cannot see derive output or external crates, Kani cannot hold a Sodg',
     'C09': 'a property of bincode\'s reader and the dependencies\' serde visitors, not of any sodg function a contract could be put on',
-    'C11': 'merge_rec is a recursion driven by a std HashMap over an impl-Iterator built with anyhow::Context, returning '
-           'anyhow::Result; bringing it into Verus means replacing those parts by hand (a model, not the code); Kani runs out '
-           'of memory on any harness that constructs a Sodg',
-    'C14': 'regex, str::split/trim, u8::from_str_radix: Verus has no str byte reasoning, Kani cannot execute regex',
-    'C17': 'starts_with, chars().skip().collect(), parse::<usize>(), format!: outside Verus; Kani timed out (15 min) on a one-character input',
-    'C20': 'output built by format!/join over HashSet-guarded recursion; no contract within reach',
+    'C11': 'the text of merge()/merge_rec() does go through Verus now (C12 is decided on it), but C11 is about what the recursion '
+           'does to the LEFT graph: every bind/add/next_id/put on it needs that graph\'s limit preconditions (label fits, group has '
+           'room, free slot, free id), which for a recursive graft are a global property of both trees; join() removes a vertex '
+           'slot, which leaves the verified invariant; proving that join() is never reached for trees IS the grafting induction '
+           '(a simulation between the two trees maintained across the recursion) - a protocol-level invariant, not a per-function '
+           'contract; Kani runs out of memory on any harness that constructs a Sodg',
+    'C14': 'the content of the property is parsing: commands() and deploy_one() are regex::Regex captures / replace_all, '
+           'str::split/trim, a match on captured &str, u8::from_str_radix on sub-slices, HashMap::entry(..).or_insert_with(|| '
+           'g.next_id()) (a closure that mutates the graph): none of it has a Verus specification and regex cannot be given one '
+           'short of re-stating it; only the loop of deploy_to() (count = number of commands, stop at the first Err) is within '
+           'reach, which is not the property; Kani cannot execute regex',
+    'C17': 'probed in this build: Verus accepts the text of Label::from_str except `enumerate()` (a provided trait method cannot be '
+           'given a specification), but vstd leaves exactly the functions the property is about unspecified - str::len (BYTE '
+           'length: the observed defect, a two-byte Greek letter is not parsed as Greek, lives here), chars().skip(), '
+           'String: FromIterator<char>, str::parse::<usize>, starts_with - and Display is format!/collect over chars; a contract '
+           'would have to axiomatise the string functions, i.e. assume what is to be shown; Kani timed out (15 min) on a '
+           'one-character input',
+    'C20': 'inspect_v() recurses inside a `for_each` closure that captures `&mut seen` and `&mut lines` (Verus has no closures '
+           'capturing mutable state), Debug::fmt is a trait method (no `requires`, so the well-formedness of the graph cannot be '
+           'assumed) writing through core::fmt::Formatter; only v_print() is within reach, which is a third of the property; '
+           'Kani cannot hold a Sodg',
 }
 
 GRAPH_TRUSTED = [
